@@ -8,7 +8,10 @@ for d in seeded/*/; do
   id=$(basename "$d"); prop=${id%%-*}
   [ -n "$1" ] && [ "$1" != "$prop" ] && [ "$1" != "$id" ] && continue
   if ! git -C /repo apply "$PWD/$d/patch.diff" 2>/dev/null; then echo "$id: patch does not apply"; rc=1; continue; fi
+  cp evidence/$prop.json /tmp/seedcheck_ev_$prop.json 2>/dev/null
   out=$(bin/check "$prop" 2>&1); ex=$?
+  # the run on the changed tree rewrote the evidence file: put the clean-tree record back
+  [ -f /tmp/seedcheck_ev_$prop.json ] && mv /tmp/seedcheck_ev_$prop.json evidence/$prop.json
   git -C /repo checkout -- . ; git -C /repo clean -fdq -- pkg cmd >/dev/null 2>&1
   n=$(echo "$out" | grep -c "^VIOLATION property=$prop ")
   if [ $ex -eq 1 ] && [ "$n" -gt 0 ]; then
@@ -17,5 +20,4 @@ for d in seeded/*/; do
     echo "$id: MISSED (exit=$ex)"; rc=1
   fi
 done
-# evidence files were rewritten by the runs on changed trees: regenerate them on the clean tree is the caller's job
 exit $rc
